@@ -6,6 +6,11 @@ ALL = ["C%02d" % i for i in range(1, 21)]
 
 # id -> (level category, engine, technique, level text, level note, design ref)
 CLAIMED = {
+ "C10": ("exploration", "E3 value-domain enumeration",
+         "bounded exhaustive enumeration of the product target format x source Go kind x boundary value, each conversion run on the real code and compared with an exact big.Rat/text reference",
+         "The full product of 13 target formats (scalar and list) x 20 source Go kinds x the boundary value set of each kind (type extremes, +-1 beyond, 2^31, 2^32, 2^53, 2^63, 2^64, -0.0, fractions, non-finite floats, numeric strings with signs/spaces/exponents) is converted by the real val.Conv/ConvOneOf (and node.NewValue for schema-aware types); a success must denote exactly the source number/text/bool. Complete within the stated sets, which contain every boundary at which a fixed-width conversion can wrap, truncate or saturate.",
+         "trusted: math/big, strconv as reference; decimal64's carrier is float64 so 'same number' is the nearest float64; errors are always accepted (the statement allows failing)",
+         "DESIGN.md section 7 C10"),
  "C17": ("exploration", "E3 value-domain enumeration",
          "bounded exhaustive enumeration of value pairs/triples and keyed-list contents against a math/big reference order",
          "Every ordered pair and triple of all 256 int8/uint8 values and of boundary sets of every wider comparable type is run through the real Compare/Equal/CompareVals and compared with the arbitrary-precision order; keyed lookups over every small list content on each list implementation. Complete within the stated value sets; order laws are universally quantified over value pairs, so exhaustive 8-bit domains plus boundary sets is the right level.",
